@@ -585,7 +585,43 @@ class Run:
         kindname, _, cls = op['cid'].partition('/')
         again = dict(op, _repeat=True, cid=f'{kindname.split(".")[0]}.repeat-after-rejection/{cls}')
         self.step(again, key + ('again',))
+      elif raised is None and not op.get('_repeat') and self.repeat:
+        # The schema must still be in force on whatever the accepted call
+        # produced or touched: an invalid follow-up write must be rejected.
+        for i, src in enumerate(self._probes(op)):
+          probe = dict(src=src, cid=op['cid'] + '/then-invalid-write', expect='reject', _repeat=True,
+                       why='invalid write after an accepted call')
+          if not self.step(probe, key + ('probe', i))[0]:
+            break
     return ok and not self.broken, raised
+
+  def _probes(self, op):
+    """Invalid writes aimed at the values the schema governs after `op`."""
+    out = []
+    def on(var, value, desc):
+      if isinstance(value, pg.List) and hasattr(desc, 'elem') and desc.elem.invalid:
+        if value.value_spec is None and var == 'y':
+          return
+        bad = desc.elem.invalid[0][1]
+        out.append(f'{var}[0]={bad}' if len(value) else f'{var}.rebind({{0:{bad}}})')
+      elif isinstance(value, (pg.Dict, pg.Object)) and hasattr(desc, 'fields'):
+        if isinstance(value, pg.Dict) and value.value_spec is None and var == 'y':
+          return
+        if any(isinstance(k, tuple) and k[1] == '^x.*' for k, _ in desc.fields):
+          out.append(f'{var}.rebind(y1=1)')
+        else:
+          out.append(f'{var}.rebind(zz=1)')
+        for k, d in desc.fields:
+          if isinstance(k, str) and k in ('f', 'l', 'd'):
+            try:
+              child = value.sym_getattr(k)
+            except Exception:  # pylint: disable=broad-except
+              continue
+            on(f'{var}.sym_getattr({k!r})', child, d)
+    on('x', self.x, self.sub.x_desc)
+    if op.get('result') and self.env.get('y') is not None:
+      on('y', self.env['y'], op['result'])
+    return out[:3]
 
   def _judge(self, op):
     """op: dict(src, cid, expect, index_error, batch_ok, result)."""
